@@ -58,14 +58,19 @@ def main(tier, only=None):
 
     # ---- (a) layout
     if want("layout"):
-        chk.bounds += ["layout: <= %d members, each any of: 14 real scalar type objects / array_of(scalar, 0..3) / "
+        chk.bounds += ["layout: <= %d members (quick tier: 3 for struct families with bit-fields), each any of: 14 real scalar type objects / array_of(scalar, 0..3) / "
                        "aggregate (align 1..16, size 0..4*align) / bit-field (10 integer base types, every width "
                        "0..width of type, named or not); _Alignas 1..32; packed; aligned(1..32); unwind %d"
                        % (nm, 16)]
         hs = []
         for key, mask in layout_families():
-            hs.append(e1.H("h_layout", key, unwind=16, defines=("FEAT=%d" % mask, "NM=%d" % nm),
-                           flags=CAD, timeout=1500 if thorough else 400, family="layout"))
+            # quick tier: struct layouts with bit-fields (three symbolic divisions per member in the real code)
+            # are decided for 3 members, everything else for 4; thorough: 5 everywhere
+            n = nm
+            if not thorough and "/struct/" in key and (mask & (F_BF_NAMED | F_BF_UNNAMED | F_BF_ZERO)):
+                n = 3
+            hs.append(e1.H("h_layout", key, unwind=16, defines=("FEAT=%d" % mask, "NM=%d" % n),
+                           flags=CAD, timeout=3000 if thorough else 600, family="layout", desc="NM=%d" % n))
         e1.run_set(chk, "c08/layout.c", hs, workers=8, extra_src=extra)
 
     # ---- (b) type-specifier multisets
